@@ -2,17 +2,18 @@
 package c17
 
 import (
+	"github.com/danos/utils/pathutil"
 	"os"
 
-	"github.com/danos/mgmterror"
 	"encoding/json"
 	"fmt"
+	"github.com/danos/mgmterror"
 	"sort"
 	"strings"
 
 	"verif/engine"
-	"verif/harness/c18"
 	"verif/gen"
+	"verif/harness/c18"
 
 	"github.com/sdcio/yang-parser/schema"
 )
@@ -327,7 +328,7 @@ func check(r rec) (vs []engine.Violation, implOK, refOK bool) {
 		} else if len(r.Path) > 0 {
 			el = r.Path[len(r.Path)-1]
 		}
-		if el != "" && !strings.Contains(msg, el) {
+		if el != "" && !strings.Contains(msg, el) && !strings.Contains(msg, strings.TrimPrefix(pathutil.Pathstr([]string{el}), "/")) { // (raw or as a rendered path element)
 			mk("error-does-not-identify-element:"+shape, fmt.Sprintf("offending element %q (index %d) not in: %s", el, bad, msg))
 		}
 		// ... and must not point past it: the position the error names (its path, plus the
@@ -344,6 +345,20 @@ func check(r rec) (vs []engine.Violation, implOK, refOK bool) {
 			}
 			if hasTag(pe.GetInfo(), "bad-element") {
 				depth++
+			}
+			// the error path is a rendered path: decoded again it is a prefix of the path that was given
+			hasEmpty := false
+			for _, tok := range r.Path {
+				hasEmpty = hasEmpty || tok == "" // (an empty element cannot be told from none in a rendered path)
+			}
+			if ep := pe.GetPath(); ep != "" && !strings.Contains(ep, "<") && !hasEmpty {
+				dec := pathutil.Makepath(ep)
+				for i := range dec {
+					if i >= len(r.Path) || dec[i] != r.Path[i] {
+						mk("error-path-does-not-decode-to-the-given-path:"+shape, fmt.Sprintf("error path %q decodes to %q, the path given was %q", ep, dec, r.Path))
+						break
+					}
+				}
 			}
 			okDepth := depth == bad+1
 			if bad >= len(r.Path) {
@@ -529,7 +544,7 @@ func run(c *engine.Ctx) {
 			toks = append(toks, n)
 		}
 		sort.Strings(toks)
-		toks = append(toks, "x", "7", "256", "true", "green", "", "nosuch")
+		toks = append(toks, "x", "7", "256", "true", "green", "", "nosuch", "a+b:c d") // (the last one: characters a rendered path escapes)
 		// every path is validated three times on the same compiled schema: incomplete paths
 		// allowed, strict, allowed again (a verdict must not depend on earlier validations)
 		{
